@@ -2,6 +2,7 @@
    Statements only; every proof is [exact <lemma>]. *)
 From FMP Require Import Base.Bytes Base.Lts Model.Events Model.Skeleton Model.Props Model.Writer
      Model.Generated Model.Msgpack Model.Frame Proofs.WriterProofs Proofs.FrameProofs Proofs.SkeletonProofs.
+From FMP Require Import Model.Paths Proofs.PathsC03.
 From FMP Require Import Model.CodecCfg Proofs.CodecCfgProofs.
 Open Scope Z_scope.
 
@@ -50,6 +51,10 @@ Proof. eexists. split; vm_compute; reflexivity. Qed.
 Theorem C03_every_frame_passes_the_length_check : cdf_length_checked codecfacts_now = true.
 Proof. exact codec_length_checked. Qed.
 
+(* on every path through the function bodies as they are in the source now (Generated.body_census, enumerated by Model/Paths.v) of encodeFrame, encodeAndWriteInternal, EncodeAndWriteAsync, EncodeAndWrite: the content size is compared before a frame is assembled, the refusing path assembles nothing, the frame is obtained before anything is handed to the writer and each entry has a way out that hands nothing over *)
+Theorem C03_source_refusal_before_handoff : encoder_paths_refuse_before_handoff = true.
+Proof. exact paths_encoder_refuse_before_handoff. Qed.
+
 Print Assumptions C03_whole_frames_and_refusals.
 Print Assumptions C03_abandon_writes_nothing.
 Print Assumptions C03_oversize_refused.
@@ -57,3 +62,4 @@ Print Assumptions C03_accepted_is_one_frame.
 Print Assumptions C03_ctx_unblocks.
 Print Assumptions C03_generated_ok.
 Print Assumptions C03_every_frame_passes_the_length_check.
+Print Assumptions C03_source_refusal_before_handoff.
